@@ -104,6 +104,10 @@ def build(tokens, elems, group_reps):
 ALIAS = {'bq': 'blockquote', 'fig': 'figure', 'figc': 'figcaption', 'cap': 'caption', 'fst': 'fieldset', 'btn': 'button', 'optg': 'optgroup', 'leg': 'legend',
          'sect': 'section', 'art': 'article', 'hdr': 'header', 'ftr': 'footer', 'adr': 'address', 'dlg': 'dialog', 'str': 'strong', 'mn': 'main', 'tem': 'template',
          'fset': 'fieldset', 'det': 'details', 'sum': 'summary', 'out': 'output'}
+# aliases whose definition is `name[attributes]` where `name` is a snippet AGAIN (form:post -> form[method=post] -> form[action]): still ONE element of that name
+CHAINED = {'form:post': 'form', 'form:get': 'form', 'a:link': 'a', 'a:blank': 'a', 'a:mail': 'a', 'bdo:l': 'bdo', 'bdo:r': 'bdo', 'select:d': 'select', 'tarea:c': 'textarea',
+           'opt': 'option', 'acr': 'acronym', 'script:src': 'script'}
+ALIAS.update(CHAINED)
 
 
 def unroll(items, parent_name=None, inline=None):
